@@ -28,12 +28,13 @@ from .. import infoset
 NONE = "__none__"
 STRICT = ParserConfig(fail_on_unknown_properties=True, fail_on_unknown_attributes=True, fail_on_converter_warnings=True)
 
-CANON = {"int": ["1", "-7"], "boolean": ["true", "false"], "decimal": ["1.5", "-0.25"], "date": ["2020-02-29", "1999-12-31"], "string": ["t", "a b"]}
+# (a "decimal" member is a NUMBER: some of its values are whole - the field then has two inferable numeric types)
+CANON = {"int": ["1", "-7"], "boolean": ["true", "false"], "decimal": ["1.5", "-0.25", "2"], "date": ["2020-02-29", "1999-12-31"], "string": ["t", "a b"]}
 
 
 def canon_text(o, idx):
     vals = CANON.get(o["tp"])
-    return vals[idx % 2] if vals else o["text"]
+    return vals[idx % len(vals)] if vals else o["text"]
 
 
 def sample_xml(tns, attrs_variant, doc, k):
@@ -61,7 +62,7 @@ def sample_json(doc, multi_names):
         if o["kids"]:
             return {c["name"]: val(c) for c in o["kids"]}
         t = canon_text(o, counter["n"])
-        return {"int": int, "boolean": lambda x: x == "true", "decimal": float, "date": str, "string": str}.get(o["tp"], str)(t)
+        return {"int": int, "boolean": lambda x: x == "true", "decimal": lambda x: float(x) if "." in x else int(x), "date": str, "string": str}.get(o["tp"], str)(t)
 
     out: dict = {}
     for o in doc:
